@@ -312,9 +312,21 @@ func H_C07_faults() {
 func H_C09_ids()  { vIDs(1) }
 func H_C09_ids3() { vIDs(2) }
 
+// two connections whose set-up overlaps: spawn-order choices for the connection
+// goroutines plus one preemption at any synchronisation point (lock, wait group,
+// atomic operation) — two fixed connections with one request each
+func H_C09_overlap() { vOverlap = true; vIDs(1) }
+
+var vOverlap bool
+
+func init() { vReg("H_C09_overlap", H_C09_overlap) }
+
 func vIDs(extra int) {
 	vSchedFork(1)
-	if extra > 1 {
+	if vOverlap {
+		vPreemptBudget(1)
+	}
+	if extra > 1 || vOverlap {
 		// three connections: only the connection goroutine's spawn order is explored
 		// (that is the one that separates the per-iteration copy from the loop variable)
 		vSchedFilter("(*github.com/jimlambrt/gldap.Server).Run$1")
@@ -329,19 +341,25 @@ func vIDs(extra int) {
 		mu.Unlock()
 	}
 	vAssume(v.mux.Delete(hf) == nil)
-	K := 1 + vLen("extraConns", extra)
+	K := 2
+	if !vOverlap {
+		K = 1 + vLen("extraConns", extra)
+	}
 	conns := []string{"c1", "c2", "c3"}
 	var ncs []interface{}
 	for i := 0; i < K; i++ {
 		nc := vNetConn(conns[i])
-		nreq := 1 + vLen(fmt.Sprintf("extraReq%d", i), 1)
+		nreq := 1
+		if !vOverlap {
+			nreq = 1 + vLen(fmt.Sprintf("extraReq%d", i), 1)
+		}
 		for j := 0; j < nreq; j++ {
 			vConnFeed(nc, vWire(refEnvelope(int64(10*(i+1)+j), refDeleteOp(), nil)))
 		}
-		if i < 2 && vBool(fmt.Sprintf("idle%d", i)) {
+		if !vOverlap && i < 2 && vBool(fmt.Sprintf("idle%d", i)) {
 			vConnFeedBlock(nc) // stays connected while later clients arrive
 		}
-		if i > 0 && i < 3-extra+1 && vBool(fmt.Sprintf("acceptErrorBefore%d", i)) {
+		if !vOverlap && i > 0 && i < 3-extra+1 && vBool(fmt.Sprintf("acceptErrorBefore%d", i)) {
 			vEnvAcceptTempErr() // e.g. out of descriptors: Accept fails once, then works again
 		}
 		vEnvAccept(nc)
@@ -435,6 +453,13 @@ func H_C11_stop() {
 		vConnFeed(nc, vWire(refEnvelope(1, refDeleteOp(), nil)))
 		vConnFeedBlock(nc)
 		vEnvAccept(nc)
+	}
+	// closing the socket may fail (e.g. a TLS client that reset the connection: the
+	// close-notify cannot be written); Stop must return all the same
+	if state != stNone {
+		vConnSet(nc, "closeErr", vBool("closeFails"))
+	}
+	switch state {
 	case stMidStreamNotReading:
 		// a pipelining client that never reads its responses; Stop arrives between two
 		// of its requests (the read loop takes its shutdown branch), handlers still
@@ -577,7 +602,8 @@ func H_C17_ready() {
 		}()
 	}
 	var runOpts []Option
-	if vBool("withTLS") {
+	withTLS := vBool("withTLS")
+	if withTLS {
 		runOpts = append(runOpts, WithTLSConfig(vTLSConfig()))
 	}
 	go func() {
@@ -597,6 +623,13 @@ func H_C17_ready() {
 		vAssertE(vEnvListenerOpen() == 1, "listening")
 		if vBool("acceptErrorFirst") {
 			vEnvAcceptTempErr() // a connection attempt that hits descriptor exhaustion; the next one must be served
+		}
+		if withTLS && vBool("silentPeerFirst") {
+			// another peer connected just before and never sends its ClientHello
+			// (no timeouts are configured): it must not keep later clients from being served
+			c0 := vNetConn("c0")
+			vConnSet(c0, "tlsPending", true)
+			vEnvAccept(c0)
 		}
 		vEnvAccept(nc)
 		vQuiesce()
